@@ -7,6 +7,7 @@ import random
 from sfv.framework import Ctx, Property
 from sfv.rt import provk, recov
 from sfv.rt.par import pmap
+from sfv.translate import availguards, provguards
 
 
 def gen_graph(rng: random.Random, idx: int) -> dict:
@@ -39,6 +40,17 @@ def token_available(t: dict) -> bool:
     if "items" in t:
         return all(token_available(x) for x in t["items"])
     return bool(t["avail"]) and ("copies" not in t or any(t["copies"]))
+
+
+def avail_line(t: dict) -> str:
+    """the token as input of the Lean availability model (driver op `avail`)"""
+    def leaf(x: dict) -> str:
+        if "copies" in x:
+            return f"f{int(bool(x['avail']))}:{''.join(str(int(bool(c))) for c in x['copies']) or '-'}"
+        return f"p{int(bool(x['avail']))}"
+    if "items" in t:
+        return ("avail " + ("record" if t.get("composite") == "object" else "list") + " " + " ".join(leaf(x) for x in t["items"])).strip()
+    return "avail leaf " + leaf(t)
 
 
 def spec(case: dict):
@@ -87,7 +99,7 @@ def _recov_cases(rng: random.Random, quick: bool) -> list[dict]:
     # forced interleaving (see props/c19.py gated_cases): the second consumer fails while the re-execution of the shared producer is RUNNING;
     # its recovery must use that re-execution: the producer's data was lost ONCE, it runs twice, not three times
     from sfv.props.c19 import gated_cases
-    for g in gated_cases(quick)[:1 if quick else None]:
+    for g in gated_cases(quick):        # RUNNING and FIREABLE windows
         cases.append(dict(g, name="c18-" + g["name"], trace_fm=True,
                           expect_why=("reexecuted-although-its-re-execution-was-under-way",
                                       "its output was lost once and the second consumer failed while its re-execution was under way")))
@@ -152,7 +164,7 @@ class C18(Property):
     lean_targets = ["SFV.Props.C18", "SFV.Model.Proto"]
     props_files = ["SFV/Props/C18.lean"]
     drivers = ["Drivers/C18.lean"]
-    translators = []
+    translators = [availguards.generate, provguards.generate]
     rule = ("(1) the REAL ProvenanceGraph.build_graph on random provenance relations (1..25 tokens, 0..3 dependees each, random availability, "
             "file tokens with 0..3 primary data locations in the real DataManager of which a random subset was deleted, lists and records of "
             "0..4 such tokens (partial losses), "
@@ -161,10 +173,14 @@ class C18(Property):
             "specification computed independently; (2) real recovery runs (pipelines, scatter, diamond; soft and fail-stop failures with OUR "
             "injector that deletes exactly the named jobs' directories; one shape holds a second primary copy of a job's output on another "
             "deployment and loses only the first): the execution count of every job is compared with the count predicted "
-            "from the injected failures and the deleted directories.")
+            "from the injected failures and the deleted directories. (3) T+K for availability: the quantifiers of FileToken / ListToken / "
+            "ObjectToken.is_available are generated into the Lean availability model; the availability build_graph recorded for every visited token "
+            "is compared with that model.")
     trusted_base = [
         "recovery harness harness/sfv/rt/recov.py (own failure injectors subclassing the repo's test injectors) and harness/sfv/rt/provk.py",
-        "token availability is a flag in the Lean model; FileToken.is_available runs for real in the build_graph comparison (copies on several local "
+        "translator harness/sfv/translate/availguards.py (shape and quantifiers of the four is_available methods)",
+        "translator harness/sfv/translate/provguards.py (statement shape of the build_graph loop: a digest of 12 facts, the model is not generated)",
+        "token availability is a flag in the Lean model of build_graph and a tree of copies in Model/Avail.lean; FileToken.is_available runs for real in the build_graph comparison (copies on several local "
         "deployments, availability specified as `recoverable and some copy exists`) and in the end-to-end runs",
         "GraphMapper / get_step_ids (token graph -> steps to re-run) is not modelled: checked end to end through execution counts",
     ]
@@ -174,7 +190,8 @@ class C18(Property):
                   "inputs only) for every provenance relation, availability map and inputs; the step from tokens to re-executed jobs is validated on real "
                   "recovery runs, not proved")
     level_note = "Lean kernel, axioms within {propext, Classical.choice, Quot.sound}; the job pipeline and GraphMapper are runtime layers (K)"
-    quick_budget_s = 420
+    quick_budget_s = 2400        # room for one confirmation re-run of a timed-out case (5x its bound), see recov.run_confirmed
+    thorough_budget_s = 6000
     min_nontrivial = 10
 
     def explore(self, ctx: Ctx) -> None:
@@ -203,8 +220,11 @@ class C18(Property):
         ]
         graphs = corpus + [gen_graph(rng, k) for k in range(n)]
         lines, meta = [], []
-        for status_case in pmap(provk.run_case, graphs, timeout=300, workers=8):
+        results_for_avail = []
+        for status_case in recov.run_confirmed(ctx, provk.run_case, graphs, timeout=300, workers=8, inner_default=120):
             case, status, real = status_case
+            if status == "ok" and real.get("outcome") == "ok":
+                results_for_avail.append(status_case)
             if status != "ok":
                 ctx.fail("build_graph:" + status, f"graph {case['idx']}: {str(real)[:300]}", {"graph": case})
                 continue
@@ -235,20 +255,40 @@ class C18(Property):
                     ctx.fail("build_graph:source-not-available", f"graph {case['idx']}: sources {srcs}", replay)
             deps = " ".join(f"{t['id']}:{','.join(map(str, t['deps']))}" for t in case["tokens"] if t["deps"]) or "-"
             stops = ",".join(str(i) for i, v in stop.items() if v) or "-"
-            lines.append(f"bg {4 * len(case['tokens']) + 8} | {','.join(map(str, case['inputs']))} | {stops} | {deps}")
+            # fuel = N = number of tokens: the bound of `build_graph_fuel_sufficient`; its hypotheses are measured here
+            ntok = len(case["tokens"])
+            if not (all(t["id"] not in t["deps"] and all(d < ntok for d in t["deps"]) for t in case["tokens"])
+                    and len(set(case["inputs"])) == len(case["inputs"]) and all(i < ntok for i in case["inputs"])):
+                ctx.disagree("hypotheses of build_graph_fuel_sufficient", f"graph {case['idx']}: self-dependency, token id out of range or "
+                             f"duplicate input", {"graph": case})
+            lines.append(f"bg {ntok} | {','.join(map(str, case['inputs']))} | {stops} | {deps}")
             if real["outcome"] == "ok":
                 exp = "ok nodes=" + (",".join(map(str, real["nodes"])) or "-") + " edges=" + ",".join(f"{a}>{b}" for a, b in sorted(map(tuple, real["edges"])))
             else:
                 exp = "noprev"
             meta.append((case, exp))
-        got = ctx.lean("Drivers/C18.lean", lines)
+        # availability of every visited non-job token: real `is_available` (as recorded by build_graph) vs the Lean availability model
+        alines, ameta = [], []
+        for case, status, real in results_for_avail:
+            byid = {t["id"]: t for t in case["tokens"]}
+            for tid, val in (real.get("info") or {}).items():
+                t = byid[int(tid)]
+                if t.get("job"):
+                    continue
+                alines.append(avail_line(t))
+                ameta.append((case, t, bool(val)))
+        got = ctx.lean("Drivers/C18.lean", lines + alines)
+        for g, (case, t, val) in zip(got[len(lines):], ameta):
+            if g.strip() != f"avail={'true' if val else 'false'}":
+                ctx.disagree("is_available vs availability model", f"graph {case['idx']} token {t['id']} {json.dumps(t)}: real {val}, model `{g.strip()}`",
+                             {"graph": case})
         for g, (case, exp) in zip(got, meta):
             g = g.strip()
             if not (g == exp or (exp == "noprev" and g.startswith("noprev"))):
                 ctx.disagree("build_graph vs model", f"graph {case['idx']}: real `{exp}`, model `{g}`", {"graph": case})
         # ---- end to end -------------------------------------------------------------------------
         rcases = _recov_cases(rng, quick)
-        for case, status, r in recov.run_cases(rcases, timeout=300, workers=6):
+        for case, status, r in recov.run_cases(rcases, timeout=300, workers=6, ctx=ctx):
             if status != "ok":
                 ctx.fail("run:" + status, f"{case['name']}: {str(r)[:300]}", {"recovery": case})
                 continue
